@@ -52,6 +52,13 @@ Proof.
   rewrite fxh_mult_spec by assumption. symmetry. apply fxmul_spec; try assumption; unfold mul_low; lia.
 Qed.
 
+Lemma fxh_mult_agrees_fixed F a b : wf F -> enc F a -> enc F b ->
+  fxh_mult F a b = fxmul_fixed F F F a b.
+Proof.
+  intros HF Ea Eb. destruct (wf_width F HF) as [Hw Hif]. pose proof HF as [_ [Hi Hf]].
+  rewrite fxmul_fixed_same by (unfold mul_low; lia). apply fxh_mult_agrees; assumption.
+Qed.
+
 (* ---- the integer spec of the product is the floor of the rational product *)
 Lemma spec_mul_rational wa fa wb fb wr fr a b : 0 <= fa -> 0 <= fb -> 0 <= fr -> 0 <= fa + fb - fr ->
   spec_mul_Q wa fa wb fb wr fr a b = spec_mul wa fa wb fb wr fr a b.
@@ -93,4 +100,11 @@ Lemma mostneg_examples :
   fxmul (1, 2, 2) (1, 2, 2) (1, 2, 2) 16 16 = Some 0 /\
   fxmul (1, 2, 2) (1, 2, 2) (1, 5, 2) 16 16 = Some 64 /\
   fxmul (1, 2, 2) (1, 2, 2) (1, 5, 4) 16 16 = Some 256.
+Proof. vm_compute. auto. Qed.
+
+(* the repaired wiring on the witness of C14-F1 and on a "full precision" accumulator format *)
+Lemma fixed_examples :
+  fxmul_fixed (1, 0, 1) (1, 0, 1) (1, 4, 0) 3 1 = Some 31 /\
+  fxmul_fixed (1, 1, 2) (1, 1, 2) (1, 4, 4) 15 1 = Some 511 /\
+  fxmul_fixed (1, 2, 2) (1, 2, 2) (1, 5, 4) 16 16 = Some 256.
 Proof. vm_compute. auto. Qed.
